@@ -736,7 +736,8 @@ class Builtins:
         if fr is not None and fr.abs_loop:
             src = fr.abs_loop[-1]
             if lst.absorbed is None and not lst.items:
-                lst.absorbed = AbsList(v, src)
+                # appended on this path for the loop's (abstract) element, and the loop body ran: not empty
+                lst.absorbed = AbsList(v, src, {"nonempty": True})
                 return
             if lst.absorbed is not None and lst.absorbed.src == src:
                 if repr(lst.absorbed.elem) != repr(v):
@@ -1469,7 +1470,8 @@ class Builtins:
         return Unknown(self.I.run.new_tag("max"))
 
     def x_object(self, args, kwargs, node, fr) -> Value:
-        return Unknown(self.I.run.new_tag("object"), {"truthy": True})
+        # a bare object(): only its identity matters (sentinels); equal to, and identical with, itself alone
+        return Unknown(self.I.run.new_tag("object"), {"truthy": True, "not_none": True, "sentinel": True})
 
     def x_object___init__(self, args, kwargs, node, fr) -> Value:
         return NONE
